@@ -58,6 +58,8 @@ type PFrac struct {
 	From   uint64 `json:"from"`
 	To     uint64 `json:"to"`
 	Sealed bool   `json:"sealed"`
+	Size   uint64 `json:"size"`
+	Pos    int    `json:"pos"`
 }
 
 type PResp struct {
